@@ -94,6 +94,11 @@ def stepCodec (p : CodecProg) (toks : List String) : CodecProg × String :=
           "ok " ++ hx (encodeSigning { addr := a, start := sh, offset := off, secs := s, nanos := n, tombstoned := tomb != 0, missed := miss })
         | _, _, _, _, _, _, _ => "bad-op")
       | _, _, _, _, _, _ => "bad-op")
+  | "astdtx" :: pre :: m :: pk :: sg :: memo :: ent :: coins =>
+    (p, match unhex pre, unhex m, unhex pk, unhex sg, unhex memo, ent.toInt?, coins.mapM parseCoinTok with
+      | some pre, some m, some pk, some sg, some memo, some ent, some fee =>
+        "ok " ++ hx (encodeStdTx pre { msg := m, fee := fee, pk := pk, sig := sg, memo := memo, entropy := ent })
+      | _, _, _, _, _, _, _ => "bad-op")
   | "astruct" :: _ :: toks => (p, match toks.mapM parseFldTok with
     | some fs => "ok " ++ hx (encodeStruct 1 fs)
     | none => "bad-op")
